@@ -290,4 +290,9 @@ theorem resolveRef_spec (stmts : List Stmt) (p : Pres F) (r : String) (c : Nat)
 
 end link
 
+/-- why the verifier's response lookup must be keyed by the *pair* (statement id, claim index): written next
+to each other the two collide (oracle: aliasing identifiers `cred`/`cred1`) -/
+theorem concatenated_key_collides : "cred" ++ toString 11 = "cred1" ++ toString 1 ∧ ("cred", 11) ≠ ("cred1", 1) := by
+  decide
+
 end AC.C05
